@@ -10,6 +10,8 @@ Case format (JSON):
   direct : {target, ncols (0 = deduce), pad, batches:[[{"k":kind,"r":[ints]},..],..], malform?}
   via    : the same plus {via: apply|select|batch|assign, fn_batch, g: row-function name, kinds_out:[kind,..],
            bare: bool (single key / bare column instead of 1-tuples)}; `ncols` = number of input columns.
+  kinds  : list | tuple | array | array2 (rows = vectors of width 3) | array3 (rows = 2x2 matrices) | other (bytes);
+           in an n-D column every component of a row equals the row's id in "r" (the model sees kind array + ids).
 """
 import itertools
 
@@ -26,16 +28,26 @@ TRUSTED = [
     'modelled, not verified: more_itertools.sliced/flatten/padded, np.concatenate/np.pad, zip(strict=True) '
     '(their list semantics are written out in Model/Rebatch.lean)',
 ]
-ASSUMPTIONS = ['rows are opaque values (ints in the correspondence); containers are list/tuple/ndarray, '
+ASSUMPTIONS = ['rows are opaque values (ints in the correspondence; for ndarray columns with ndim 2/3 a row is a constant vector / '
+               'matrix carrying its id, so a torn or glued row is visible); containers are list/tuple/ndarray, '
                'plus bytes as the representative of an unsupported container kind']
 RULE = ('direct cases: small-exhaustive over batch-size sequences (len<=3, sizes 0..4 quick / len<=4, sizes 0..6 thorough) x targets x '
-        'column counts x container kinds x pad, then random long streams and a ~10% malformed stream '
+        'column counts x container kinds (list, tuple, 1-D array, arrays whose rows are vectors / 2x2 matrices) x pad, then random long streams and a ~10% malformed stream '
         '(ragged columns, wrong column count, unsupported container); non-trivial = at least 2 input batches '
         'and the target size differs from some input batch size; distinct = distinct canonical case JSON. '
         'via cases: the same size sequences pushed through Pipeline.apply/select/batch/assign with fn_batch_size x batch_size '
-        'x row functions x output container kinds (random), compared with the Lean model of TreeFn._iterate (treeFn)')
+        'x row functions (row-preserving and row-count-changing: twice / keep_even / explode / none, with fn_batch_size ==, != batch_size and 0) '
+        'x output container kinds, compared with the Lean model of TreeFn._iterate (treeFn)')
 
 KINDS = ['list', 'tuple', 'array']
+# 'array2' / 'array3': numpy columns whose rows are vectors of width 3 / 2x2 matrices (ndim 2 / 3).  Rows stay
+# opaque in the model: every component of row g equals its integer id, the model sees kind 'array' and the id.
+ND_TAIL = {'array2': (3,), 'array3': (2, 2)}
+KINDS5 = KINDS + ['array2', 'array3']
+
+
+def wire_kind(k):
+  return 'array' if k in ND_TAIL else k
 
 
 def mk_col(kind, rows):
@@ -45,14 +57,40 @@ def mk_col(kind, rows):
     return tuple(rows)
   if kind == 'array':
     return np.array(rows, dtype=np.int64)
+  if kind in ND_TAIL:
+    tail = ND_TAIL[kind]
+    a = np.array(rows, dtype=np.int64).reshape((len(rows),) + (1,) * len(tail))
+    return np.broadcast_to(a, (len(rows),) + tail).copy()
   if kind == 'other':
     return bytes(rows)
   raise ValueError(kind)
 
 
+def _flat2(c):
+  """(n, ...) -> (n, prod(...)); also for n = 0."""
+  return c.reshape(len(c), int(np.prod(c.shape[1:])))
+
+
+def col_ids(c):
+  """Row ids of a column as the batch functions see them (first component of a vector-valued row)."""
+  if isinstance(c, np.ndarray):
+    return _flat2(c)[:, 0].tolist() if c.ndim > 1 else c.tolist()
+  return list(c)
+
+
 def col_obs(c):
   if isinstance(c, np.ndarray):
-    return {'k': 'array', 'r': [int(x) for x in c.tolist()]}
+    if c.ndim == 1:
+      return {'k': 'array', 'r': [int(x) for x in c.tolist()]}
+    # rows are vectors/matrices: the column must still be (n,) + tail and every row constant (= its id);
+    # anything else means rows were torn apart or glued together: reported with a marker kind and row id -1
+    kind = {2: 'array2', 3: 'array3'}.get(c.ndim)
+    if kind is None or tuple(c.shape[1:]) != ND_TAIL[kind]:
+      return {'k': f'array!shape{list(c.shape)}', 'r': [-1] * len(c)}
+    flat = _flat2(c)
+    ok = bool((flat == flat[:, :1]).all())
+    return {'k': kind if ok else kind + '!rows-not-constant',
+            'r': [int(r[0]) if (r == r[0]).all() else -1 for r in flat]}
   if isinstance(c, list):
     return {'k': 'list', 'r': canon(c)}
   if isinstance(c, tuple):
@@ -86,18 +124,24 @@ def gen_direct(ctx):
     for sizes in itertools.product(range(0, maxsize + 1), repeat=n):
       for target in targets:
         ncols = 1 + (sum(sizes) + n + target) % 3
-        kinds = [KINDS[(sum(sizes) + target + i) % 3] for i in range(ncols)]
+        kinds = [KINDS5[(sum(sizes) + 2 * target + n + 3 * i) % 5] for i in range(ncols)]
         pad = None if (sum(sizes) + n) % 2 == 0 else 0
         yield make_case(sizes, target, ncols, kinds, pad, explicit_cols=(n + target) % 2 == 0)
   yield make_case((), 0, 1, ['list'], None, True)
   yield make_case((2, 3), 0, 2, ['list', 'array'], None, False)
+  # array columns with vector-/matrix-valued rows: several chunks merged in one flush, carry + new batch, padding
+  for sizes, target, pad in [((2, 2, 2, 2), 4, None), ((2, 2, 3, 1, 2), 4, None), ((1, 1, 1, 1, 1), 2, 0),
+                             ((3, 3, 3), 2, None), ((5, 1, 4), 3, 7), ((2, 2), 8, 0), ((0, 2, 1), 3, None)]:
+    yield make_case(sizes, target, 2, ['array2', 'array'], pad, True)
+    yield make_case(sizes, target, 3, ['list', 'array3', 'array2'], pad, False)
+    yield make_case(sizes, target, 1, ['array3'], pad, False)
   # random long
   for _ in range(300 if quick else 6000):
     n = rng.randrange(0, 12)
     sizes = [rng.choice([0, 1, 1, 2, 3, 5, 8, 13]) for _ in range(n)]
     target = rng.choice([1, 2, 3, 4, 5, 7, 16])
     ncols = rng.randrange(1, 4)
-    kinds = [rng.choice(KINDS) for _ in range(ncols)]
+    kinds = [rng.choice(KINDS5) for _ in range(ncols)]
     pad = rng.choice([None, None, 0, 7])
     yield make_case(sizes, target, ncols, kinds, pad, rng.random() < 0.5)
   # malformed stream
@@ -106,7 +150,7 @@ def gen_direct(ctx):
     sizes = [rng.randrange(0, 5) for _ in range(n)]
     target = rng.randrange(1, 5)
     ncols = rng.randrange(1, 4)
-    kinds = [rng.choice(KINDS) for _ in range(ncols)]
+    kinds = [rng.choice(KINDS5) for _ in range(ncols)]
     case = make_case(sizes, target, ncols, kinds, rng.choice([None, 0]), rng.random() < 0.5)
     how = rng.choice(['ragged', 'cols', 'other', 'zerocols'])
     bi = rng.randrange(n)
@@ -130,18 +174,26 @@ def gen_direct(ctx):
 
 # ------------------------------------------------------------------ row functions (mirrors Driver/Rebatch.lean rowFn)
 
+# every input row yields a LIST of output rows (exactly one for the row-preserving functions)
 ROW_FNS = {
-    'id': lambda r: list(r),
-    'sum': lambda r: [sum(r)],
-    'rev': lambda r: list(reversed(r)),
-    'dup': lambda r: list(r) + list(r),
-    'affine': lambda r: [2 * x + 1 for x in r],
-    'first': lambda r: [r[0]],
+    'id': lambda r: [list(r)],
+    'sum': lambda r: [[sum(r)]],
+    'rev': lambda r: [list(reversed(r))],
+    'dup': lambda r: [list(r) + list(r)],
+    'affine': lambda r: [[2 * x + 1 for x in r]],
+    'first': lambda r: [[r[0]]],
+    # row-count-changing functions (the output of a call has more / fewer rows than its input, possibly none)
+    'twice': lambda r: [list(r), list(r)],
+    'keep_even': lambda r: [list(r)] if r[0] % 2 == 0 else [],
+    'explode': lambda r: [list(r) for _ in range(r[0] % 3)],
+    'none': lambda r: [],
 }
+ROW_PRESERVING = ['affine', 'dup', 'first', 'id', 'rev', 'sum']
+ROW_CHANGING = ['explode', 'keep_even', 'none', 'twice']
 
 
 def n_out(g, nin):
-  return {'id': nin, 'sum': 1, 'rev': nin, 'dup': 2 * nin, 'affine': nin, 'first': 1}[g]
+  return {'sum': 1, 'dup': 2 * nin, 'first': 1}.get(g, nin)
 
 
 def make_via(via, sizes, batch, fn_batch, nin, kinds, g='id', kinds_out=None, bare=False, malform=None):
@@ -169,7 +221,13 @@ def gen_via(ctx):
                      kinds_out=[KINDS[(b + i) % 3] for i in range(n_out(['sum', 'rev', 'affine'][(fb + b) % 3], nin))],
                      bare=(len(sizes) + b) % 2 == 0)
     for b in (0, 1, 2, 3):
-      yield make_via('select', sizes, b, 0, 1 + len(sizes) % 2, KINDS, bare=b % 2 == 0)
+      yield make_via('select', sizes, b, 0, 1 + len(sizes) % 2, KINDS5[(b + len(sizes)) % 5:] + KINDS, bare=b % 2 == 0)
+    # functions that change the number of rows, with fn_batch_size == batch_size and != (and off)
+    for gi, g in enumerate(ROW_CHANGING):
+      for fb, b in [(2, 2), (3, 3), (1, 1), (2, 3), (4, 1), (0, 2), (0, 0)]:
+        nin = 1 + (len(sizes) + gi + b) % 2
+        yield make_via('apply', sizes, b, fb, nin, KINDS5[(gi + fb) % 5:] + KINDS, g=g,
+                       kinds_out=[KINDS5[(gi + b + 2 * i) % 5] for i in range(nin)], bare=(gi + fb) % 2 == 0)
   for n in range(0, 6):
     for b in (1, 2, 3):
       yield make_via('batch', [1] * n, b, 0, 1 + (n + b) % 2, ['list'], bare=True)
@@ -178,11 +236,11 @@ def gen_via(ctx):
     via = rng.choice(['apply', 'apply', 'apply', 'select', 'batch', 'assign'])
     n = rng.randrange(0, 9)
     nin = rng.randrange(1, 4)
-    kinds = [rng.choice(KINDS) for _ in range(nin)]
-    g = rng.choice(sorted(ROW_FNS))
-    kinds_out = [rng.choice(KINDS) for _ in range(n_out(g, nin))]
+    kinds = [rng.choice(KINDS5) for _ in range(nin)]
+    g = rng.choice(ROW_PRESERVING if via == 'assign' or rng.random() < 0.5 else ROW_CHANGING)
+    kinds_out = [rng.choice(KINDS5) for _ in range(n_out(g, nin))]
     b = rng.choice([1, 2, 3, 4, 5, 7])
-    fb = rng.choice([0, 0, 1, 2, 3, 4, 6])
+    fb = rng.choice([0, 0, 1, 2, 3, 4, 6, b, b])
     if via == 'batch':
       yield make_via('batch', [1] * n, b, 0, nin, ['list'], bare=rng.random() < 0.5)
     elif via == 'assign':
@@ -201,8 +259,8 @@ def gen_via(ctx):
     sizes = [rng.randrange(1, 5) for _ in range(n)]
     via = rng.choice(['select', 'apply'])
     g = rng.choice(['id', 'rev', 'sum'])
-    case = make_via(via, sizes, rng.randrange(1, 4), rng.randrange(1, 4), nin, [rng.choice(KINDS) for _ in range(nin)],
-                    g, [rng.choice(KINDS) for _ in range(n_out(g, nin))], malform='ragged')
+    case = make_via(via, sizes, rng.randrange(1, 4), rng.randrange(1, 4), nin, [rng.choice(KINDS5) for _ in range(nin)],
+                    g, [rng.choice(KINDS5) for _ in range(n_out(g, nin))], malform='ragged')
     case['batches'][rng.randrange(n)][rng.randrange(nin)]['r'].append(99)
     yield case
   # Assign with batch boundaries that differ from the incoming ones: known finding F-C19-assign (documented, few cases)
@@ -210,37 +268,108 @@ def gen_via(ctx):
     yield make_via('assign', sizes, b, fb, 2, ['list', 'array'], 'sum', ['list'])
 
 
-def branches(case):
-  """Which arms of the flush/carry logic a case exercises (computed from the sizes alone)."""
-  t, out = case['target'], set()
-  if case.get('malform'):
-    return {'malformed:' + case['malform']}
-  if t == 0:
-    return {'identity'}
-  if not case['batches']:
-    return {'empty-stream'}
-  m = 0
-  for b in case['batches']:
-    m += len(b[0]['r']) if b else 0
+def flush_arms(sizes, t, padded):
+  """Arms of the flush/carry logic exercised by a sequence of incoming batch sizes (computed from the sizes alone);
+  also says whether some flush had to merge >= 2 buffered chunks (what `_concat` is for)."""
+  out, m, chunks, merged = set(), 0, 0, False
+  for s_ in sizes:
+    m, chunks = m + s_, chunks + 1
     if m == 0:
       out.add('zero-rows-buffered')
     elif m < t:
       out.add('below-target:no-flush')
     else:
+      merged |= chunks >= 2
       out.add('flush:multi-slice' if m > t else 'flush:one-slice')
       out.add('flush:exact-fit' if m % t == 0 else 'flush:carry-remainder')
       m %= t
+      chunks = 1 if m else 0
   if m == 0:
     out.add('exhausted:nothing-buffered')
   else:
-    out.add('exhausted:remainder-padded' if case.get('pad') is not None else 'exhausted:remainder')
+    merged |= chunks >= 2
+    out.add('exhausted:remainder-padded' if padded else 'exhausted:remainder')
+  if merged:
+    out.add('merge:>=2-chunks')
+  return out
+
+
+def regroup(sizes, t):
+  """Batch sizes after re-batching to t (t = 0: unchanged)."""
+  n = sum(sizes)
+  return list(sizes) if t == 0 else [t] * (n // t) + ([n % t] if n % t else [])
+
+
+def mid_sizes(case):
+  """via cases: row counts of the batches the function is called with, and of what it returns."""
+  g = ROW_FNS[case['g']]
+  rows = [[c['r'][i] for c in bt] for bt in case['batches'] for i in range(len(bt[0]['r']))]
+  calls = regroup([len(bt[0]['r']) for bt in case['batches']], case['fn_batch'])
+  outs, pos = [], 0
+  for n in calls:
+    outs.append(sum(len(g(r)) for r in rows[pos:pos + n]))
+    pos += n
+  return calls, outs
+
+
+def branches(case):
+  """Which arms of the re-batching logic a case exercises."""
+  t = case['target']
+  if case.get('malform'):
+    return {'malformed:' + case['malform']}
+  via = case.get('via')
+  kinds_in = {c['k'] for bt in case['batches'] for c in bt}
+  nd_in = bool(kinds_in & set(ND_TAIL))
+  out = set()
+  if not via:
+    if t == 0:
+      return {'identity'}
+    if not case['batches']:
+      return {'empty-stream'}
+    out = flush_arms([len(b[0]['r']) if b else 0 for b in case['batches']], t, case.get('pad') is not None)
+    if nd_in:
+      out.add('nd-array')
+      if 'merge:>=2-chunks' in out:
+        out.add('nd-array:merge')
+      if 'exhausted:remainder-padded' in out:
+        out.add('nd-array:padded')
+    return out
+  if not case['batches']:
+    return {'empty-stream'}
+  fb, g = case['fn_batch'], case['g']
+  calls, outs = mid_sizes(case)
+  nd_out = bool(set(kinds_out_of(case)) & set(ND_TAIL))
+  if fb:
+    st1 = flush_arms([len(bt[0]['r']) for bt in case['batches']], fb, False)
+    if nd_in and 'merge:>=2-chunks' in st1:
+      out.add('nd-array:merge')
+  if t == 0:
+    out.add('identity')
+  else:
+    out |= flush_arms(outs, t, False)
+    if nd_out and 'merge:>=2-chunks' in out:
+      out.add('nd-array:merge')
+  if nd_in or nd_out:
+    out.add('nd-array')
+  if g in ROW_CHANGING and via == 'apply' and t:
+    rel = 'fb=b' if fb == t else ('fb=0' if fb == 0 else 'fb!=b')
+    if any(o > c for o, c in zip(outs, calls)):
+      out.add('rowfn:expand:' + rel)
+    if any(o < c for o, c in zip(outs, calls)):
+      out.add('rowfn:drop:' + rel)
+    if any(o == 0 and c > 0 for o, c in zip(outs, calls)):
+      out.add('rowfn:empty-intermediate-batch')
   return out
 
 
 REQUIRED_BRANCHES = ['identity', 'empty-stream', 'zero-rows-buffered', 'below-target:no-flush', 'flush:one-slice',
                      'flush:multi-slice', 'flush:exact-fit', 'flush:carry-remainder', 'exhausted:nothing-buffered',
-                     'exhausted:remainder', 'exhausted:remainder-padded', 'malformed:ragged', 'malformed:cols',
-                     'malformed:other', 'malformed:zerocols']
+                     'exhausted:remainder', 'exhausted:remainder-padded', 'merge:>=2-chunks', 'nd-array:merge',
+                     'nd-array:padded', 'malformed:ragged', 'malformed:cols', 'malformed:other', 'malformed:zerocols']
+REQUIRED_PIPELINE = ['flush:multi-slice', 'flush:carry-remainder', 'exhausted:remainder', 'malformed:ragged',
+                     'merge:>=2-chunks', 'nd-array:merge', 'zero-rows-buffered',
+                     'rowfn:expand:fb=b', 'rowfn:expand:fb!=b', 'rowfn:expand:fb=0', 'rowfn:drop:fb=b', 'rowfn:drop:fb!=b',
+                     'rowfn:drop:fb=0', 'rowfn:empty-intermediate-batch']
 
 
 def gen_cases(ctx):
@@ -261,8 +390,7 @@ def extra(ctx):
   """Coverage promise of the generator: every arm of the re-batching logic is exercised (else: infrastructure failure)."""
   from harness.core import InfraError
   missing = [b for b in REQUIRED_BRANCHES if b not in ctx.hist.get('branch:direct', {})]
-  missing += ['pipeline:' + b for b in ('flush:multi-slice', 'flush:carry-remainder', 'exhausted:remainder', 'malformed:ragged')
-              if b not in ctx.hist.get('branch:pipeline', {})]
+  missing += ['pipeline:' + b for b in REQUIRED_PIPELINE if b not in ctx.hist.get('branch:pipeline', {})]
   missing += ['entry:' + v for v in ('apply', 'select', 'batch', 'assign') if v not in ctx.hist.get('entry_point', {})]
   if missing:
     raise InfraError(f'generator missed promised branches: {missing}')
@@ -304,8 +432,8 @@ def _batch_fn(case):
   g, kinds_out, bare = ROW_FNS[case['g']], case['kinds_out'], case['bare']
 
   def fn(*cols):
-    rows = list(zip(*[(c.tolist() if isinstance(c, np.ndarray) else list(c)) for c in cols]))
-    outs = [g(list(r)) for r in rows]
+    rows = list(zip(*[col_ids(c) for c in cols]))
+    outs = [o for r in rows for o in g(list(r))]
     res = tuple(mk_col(k, [o[c] for o in outs]) for c, k in enumerate(kinds_out))
     if len(res) == 1 and bare and kinds_out[0] != 'tuple':
       return res[0]          # a bare column: `_normalize_outputs` has to wrap it
@@ -379,20 +507,32 @@ def assign_aligned(case):
   return all(s == b for s in sizes[:-1]) and (not sizes or 1 <= sizes[-1] <= b)
 
 
+def to_wire(batches):
+  """n-D array columns travel as kind 'array' + row ids (rows are opaque in the model)."""
+  return [[{'k': wire_kind(c['k']), 'r': c['r']} for c in bt] for bt in batches]
+
+
+def from_wire(out, declared):
+  """Inverse of `to_wire` on the model's output: column c was declared with kind declared[c]."""
+  return [[{'k': declared[i] if (col['k'] == 'array' and i < len(declared) and declared[i] in ND_TAIL) else col['k'],
+            'r': col['r']} for i, col in enumerate(bt)] for bt in out]
+
+
 def model_requests(case):
   if case.get('via'):
     return [dict(model='rebatch', op='treefn', target=case['target'], fn_batch=case['fn_batch'],
-                 ncols=case['ncols'], nout_kinds=kinds_out_of(case), g=case['g'], ident=case['via'] == 'select',
-                 batches=case['batches'])]
+                 ncols=case['ncols'], nout_kinds=[wire_kind(k) for k in kinds_out_of(case)], g=case['g'],
+                 ident=case['via'] == 'select', batches=to_wire(case['batches']))]
   return [dict(model='rebatch', target=case['target'], ncols=case['ncols'], pad=case['pad'],
-               batches=case['batches'])]
+               batches=to_wire(case['batches']))]
 
 
 def model_obs(case, resps):
   r = resps[0]
   if not case.get('via'):
-    return dict(out=r['out'], err=r['err'], pulls=r['pulls'])
-  obs = dict(out=r['out'], err=r['err'])
+    declared = [c['k'] for c in case['batches'][0]] if case['batches'] else []
+    return dict(out=from_wire(r['out'], declared), err=r['err'], pulls=r['pulls'])
+  obs = dict(out=from_wire(r['out'], kinds_out_of(case)), err=r['err'])
   if case['via'] == 'assign':
     if not assign_aligned(case):
       return dict(skip='Assign outside the aligned domain (finding F-C19-assign): the model of TreeFn._iterate does not say '
@@ -424,8 +564,20 @@ def well_formed(case):
   return n > 0
 
 
+def check_columns(out):
+  """Every emitted column is a container of whole rows (col_obs marks torn / glued n-D rows with '!')."""
+  for j, b in enumerate(out):
+    for c, col in enumerate(b):
+      if '!' in col['k']:
+        return f"batch {j} column {c}: rows are not the input rows any more ({col['k']})"
+  return None
+
+
 def check_shapes(out, ncols, t, pad):
   """Sizes and rectangularity of the emitted batches (target t > 0)."""
+  bad = check_columns(out)
+  if bad:
+    return bad
   for j, b in enumerate(out):
     if len(b) != ncols:
       return f'batch {j} has {len(b)} columns, expected {ncols}'
@@ -483,13 +635,16 @@ def oracle_via(case, obs):
   out = obs['out']
   nout = n_out(case['g'], nin)
   rows = [[c['r'][i] for c in bt] for bt in bs for i in range(len(bt[0]['r']))]
-  want_rows = [g(r) for r in rows]
+  want_rows = [o for r in rows for o in g(r)]     # flat-map of the row function over the input rows, in order
   if b > 0:
     bad = check_shapes(out, nout, b, None)
     if bad:
       return bad
-  else:       # no re-batching at all: one output batch per input batch
-    if [len(o[0]['r']) for o in out] != [len(bt[0]['r']) for bt in bs]:
+  else:       # no re-batching at all: one output batch per input batch, holding what the function returns for it
+    bad = check_columns(out)
+    if bad:
+      return bad
+    if [len(o[0]['r']) for o in out] != [sum(len(g([c['r'][i] for c in bt])) for i in range(len(bt[0]['r']))) for bt in bs]:
       return 'batch_size=0 changed the batch boundaries'
   for c in range(nout):
     got = [x for o in out for x in o[c]['r']]
@@ -504,7 +659,7 @@ def oracle_via(case, obs):
       if len(lens) != 1:
         return f'tree {j}: assigned and original columns have different lengths {sorted(lens)}'
       for r in range(lens.pop()):
-        if [c['r'][r] for c in o] != g([c['r'][r] for c in i]):
+        if [[c['r'][r] for c in o]] != g([c['r'][r] for c in i]):
           return f'tree {j} row {r}: assigned values do not belong to the original row'
     if [x for i in ins for x in i[0]['r']] != [r[0] for r in rows]:
       return 'original rows were lost or duplicated by Assign with batch_size'
